@@ -1,12 +1,13 @@
 """property id -> check function"""
 import json, sys
-import checks_bytecode, checks_source
+import checks_bytecode, checks_source, checks_vm
 
 CHECKS = {
     'C02': checks_bytecode.c02,
     'C03': checks_bytecode.c03,
     'C04': checks_bytecode.c04,
     'C01': checks_source.c01,
+    'C05': checks_vm.c05,
 }
 
 
